@@ -39,6 +39,7 @@ class Worker:
         env.pop("PYTHONPATH", None)
         env.update({"PYTHONUTF8": "1", "PYTHONDONTWRITEBYTECODE": "1", "PYTHONHASHSEED": "0"})
         env.update(self.env_extra)
+        env["C17_SHIM_DIR"] = self.scratch          # script files of the shim2 preload (inactive while absent)
         self.errf = open(os.path.join(self.scratch, "stderr.txt"), "wb")
         self.proc = subprocess.Popen([PY, "-X", "utf8", WORKER, self.pkg_parent, self.scratch], env=env,
                                      stdin=subprocess.PIPE, stdout=subprocess.PIPE, stderr=self.errf,
@@ -161,6 +162,138 @@ def build_shim():
             raise InfraError("cannot build sched_getaffinity shim: " + r.stdout[-1500:])
         os.replace(so + ".tmp", so)
     return so
+
+
+SHIM2_C = r"""
+#define _GNU_SOURCE
+#include <dlfcn.h>
+#include <errno.h>
+#include <ifaddrs.h>
+#include <net/if.h>
+#include <stdarg.h>
+#include <stdio.h>
+#include <stdlib.h>
+#include <string.h>
+#include <sys/ioctl.h>
+#include <sys/socket.h>
+#include <sys/sysinfo.h>
+#include <linux/sockios.h>
+#include <linux/ethtool.h>
+/* Scripted OS answers for the C17 correspondence.  Active only while the script file exists in $C17_SHIM_DIR:
+     ifaddrs.txt   one entry per line: <name hex> <flags> <addr> <netmask> <ifu>   (each sockaddr: '-' or the hex of its bytes;
+                   every sockaddr is malloc'ed with EXACTLY that many bytes, so that a sanitizer build sees any over-read)
+     ioctl.txt     "<ret> <errno> <mtu> <flags> <speed_lo> <speed_hi> <duplex>" for SIOCGIFMTU / SIOCGIFFLAGS / SIOCETHTOOL;
+                   the 16 raw bytes of ifr_name the call carried are appended (hex) to ioctl.out
+     sysinfo.txt   seven decimal numbers: totalram freeram bufferram sharedram totalswap freeswap mem_unit            */
+static const char *dir(void) { return getenv("C17_SHIM_DIR"); }
+static FILE *script(const char *name) {
+    char p[4096]; const char *d = dir();
+    if (!d) return NULL;
+    snprintf(p, sizeof p, "%s/%s", d, name);
+    return fopen(p, "r");
+}
+static int hexv(int c) { return c >= '0' && c <= '9' ? c - '0' : c >= 'a' && c <= 'f' ? c - 'a' + 10 : -1; }
+static unsigned char *unhex(const char *s, size_t *n) {
+    size_t l = strlen(s) / 2, i; unsigned char *b = malloc(l ? l : 1);
+    for (i = 0; i < l; i++) b[i] = (unsigned char)(hexv(s[2 * i]) * 16 + hexv(s[2 * i + 1]));
+    *n = l; return b;
+}
+static struct ifaddrs *ours;
+static void free_ours(struct ifaddrs *p) {
+    while (p) { struct ifaddrs *n = p->ifa_next; free(p->ifa_name); free(p->ifa_addr); free(p->ifa_netmask); free(p->ifa_broadaddr); free(p); p = n; }
+}
+static struct sockaddr *sock_of(const char *tok) {
+    size_t n; if (tok[0] == '-') return NULL;
+    return (struct sockaddr *)unhex(tok, &n);
+}
+int getifaddrs(struct ifaddrs **out) {
+    static int (*real)(struct ifaddrs **);
+    FILE *f = script("ifaddrs.txt");
+    if (!f) { if (!real) real = dlsym(RTLD_NEXT, "getifaddrs"); return real(out); }
+    struct ifaddrs *head = NULL, **tail = &head;
+    static char name[4096], a[70000], m[70000], u[70000]; unsigned flags;
+    while (fscanf(f, "%4095s %u %69999s %69999s %69999s", name, &flags, a, m, u) == 5) {
+        struct ifaddrs *e = calloc(1, sizeof *e); size_t n;
+        unsigned char *nm = unhex(name, &n);
+        e->ifa_name = malloc(n + 1); memcpy(e->ifa_name, nm, n); e->ifa_name[n] = 0; free(nm);
+        e->ifa_flags = flags; e->ifa_addr = sock_of(a); e->ifa_netmask = sock_of(m); e->ifa_broadaddr = sock_of(u);
+        *tail = e; tail = &e->ifa_next;
+    }
+    fclose(f);
+    ours = head; *out = head; return 0;
+}
+void freeifaddrs(struct ifaddrs *p) {
+    static void (*real)(struct ifaddrs *);
+    if (p && p == ours) { free_ours(p); ours = NULL; return; }
+    if (!real) real = dlsym(RTLD_NEXT, "freeifaddrs");
+    real(p);
+}
+int ioctl(int fd, unsigned long req, ...) {
+    static int (*real)(int, unsigned long, void *);
+    va_list ap; void *arg; va_start(ap, req); arg = va_arg(ap, void *); va_end(ap);
+    if (req == SIOCGIFMTU || req == SIOCGIFFLAGS || req == SIOCETHTOOL) {
+        FILE *f = script("ioctl.txt");
+        if (f) {
+            int ret = 0, err = 0, mtu = 0; unsigned flags = 0, lo = 0, hi = 0, duplex = 0;
+            int got = fscanf(f, "%d %d %d %u %u %u %u", &ret, &err, &mtu, &flags, &lo, &hi, &duplex);
+            fclose(f);
+            if (got == 7) {
+                struct ifreq *ifr = arg; char p[4096]; FILE *o; int i;
+                snprintf(p, sizeof p, "%s/ioctl.out", dir());
+                o = fopen(p, "a");
+                if (o) { fprintf(o, "%lx ", req); for (i = 0; i < IFNAMSIZ; i++) fprintf(o, "%02x", (unsigned char)ifr->ifr_name[i]); fprintf(o, "\n"); fclose(o); }
+                if (ret == -1) { errno = err; return -1; }
+                if (req == SIOCGIFMTU) ifr->ifr_mtu = mtu;
+                else if (req == SIOCGIFFLAGS) ifr->ifr_flags = (short)flags;
+                else { struct ethtool_cmd *e = (struct ethtool_cmd *)ifr->ifr_data; e->speed = (unsigned short)lo; e->speed_hi = (unsigned short)hi; e->duplex = (unsigned char)duplex; }
+                return 0;
+            }
+        }
+    }
+    if (!real) real = dlsym(RTLD_NEXT, "ioctl");
+    return real(fd, req, arg);
+}
+int sysinfo(struct sysinfo *info) {
+    static int (*real)(struct sysinfo *);
+    FILE *f = script("sysinfo.txt");
+    if (f) {
+        unsigned long v[7]; int got = fscanf(f, "%lu %lu %lu %lu %lu %lu %lu", v, v + 1, v + 2, v + 3, v + 4, v + 5, v + 6);
+        fclose(f);
+        if (got == 7) {
+            memset(info, 0x5a, sizeof *info);
+            info->totalram = v[0]; info->freeram = v[1]; info->bufferram = v[2]; info->sharedram = v[3];
+            info->totalswap = v[4]; info->freeswap = v[5]; info->mem_unit = (unsigned)v[6];
+            return 0;
+        }
+    }
+    if (!real) real = dlsym(RTLD_NEXT, "sysinfo");
+    return real(info);
+}
+"""
+
+
+def _build_so(name, code):
+    d = os.path.join(build.CACHE, "c17shim")
+    os.makedirs(d, exist_ok=True)
+    so = os.path.join(d, name + ".so")
+    src = os.path.join(d, name + ".c")
+    if not os.path.exists(so) or not os.path.exists(src) or open(src).read() != code:
+        tmpc = src + ".tmp%d" % os.getpid()
+        with open(tmpc, "w") as f:
+            f.write(code)
+        os.replace(tmpc, src)
+        tmp = so + ".tmp%d" % os.getpid()
+        r = subprocess.run(["gcc", "-shared", "-fPIC", "-O1", "-o", tmp, src, "-ldl"],
+                           stdout=subprocess.PIPE, stderr=subprocess.STDOUT, text=True)
+        if r.returncode != 0:
+            raise InfraError("cannot build %s shim: %s" % (name, r.stdout[-1500:]))
+        os.replace(tmp, so)
+    return so
+
+
+def build_shim2():
+    """LD_PRELOAD library scripting getifaddrs / ioctl(SIOCGIFMTU|SIOCGIFFLAGS|SIOCETHTOOL) / sysinfo (see SHIM2_C)."""
+    return _build_so("shim2", SHIM2_C)
 
 
 # --------------------------------------------------------------------------- utmp (independent: struct.pack)
